@@ -211,7 +211,7 @@ def _build(case, model, factory_kind):
             if factory_kind == 'HTTPError':
                 obj = ombott.HTTPError(status if case['status_first'] else None, 'body', **kw)
             else:
-                obj = ombott.HTTPResponse('body', status if case['status_first'] else None, headers, **kw)
+                obj = ombott.HTTPResponse(b'body', status if case['status_first'] else None, headers, **kw)
         except (ValueError, TypeError) as e:
             bad_type = any(not _simple(v) for e_, n, v in eff)
             if not must_raise and not bad_type:
@@ -323,7 +323,7 @@ def check_case(ctx, case):
                 box['fail'] = f
                 return 'fail'
             if kind == 'wsgi_response':
-                return 'body'
+                return b'body'          # bytes: the body must not depend on a charset parameter a generated Content-Type may carry
             if kind == 'wsgi_raised':
                 raise obj
             return obj
